@@ -59,6 +59,11 @@ func hang(c *ev.Ctx, out quiesce.Outcome, dump []quiesce.G, sig string, what any
 		c.Violation(sig, map[string]any{"what": what, "all_goroutines_parked": true, "p9_stacks": quiesce.P9Stacks(dump)})
 	case quiesce.Timeout:
 		c.Inconclusive(fmt.Sprintf("%s: watchdog fired with runnable goroutines: %v", sig, what))
+	case quiesce.Spinning:
+		// library goroutines stayed runnable and burnt CPU for the whole
+		// watchdog period while the awaited event never came: livelock
+		c.Violation(sig+":livelock", map[string]any{"what": what, "library_goroutines_spinning": true, "p9_stacks": quiesce.P9Stacks(dump)})
+		c.Abort("livelock observed: " + sig)
 	}
 	return out != quiesce.CondMet
 }
@@ -73,3 +78,8 @@ func u(x uint64) uint64 { return x }
 const (
 	mib4 = 4 << 20
 )
+
+// wd is the per-wait watchdog. Its firing is never a verdict by itself: the
+// wait is then classified as livelock (library goroutines runnable and burning
+// CPU throughout) or inconclusive.
+const wd = 25 * time.Second
